@@ -89,4 +89,6 @@ func runTreeDecCase(o *hx.Out, k int, r *prng.R, u *universe) {
 	})
 	o.Line("adm 3 "+t.tok(), obs)
 	o.Seen("adm/" + t.tok())
+	// the decoders on values of every shape (shapes.go)
+	runShapesCase(o, k, r, u)
 }
